@@ -51,6 +51,15 @@ let parse_shape (t : string) : shape =
     | 'b' -> ignore (token ()); SBytes
     | '[' -> let e = go () in if t.[!p] <> ']' then failwith "a vector shape holds one element shape"; incr p; SVec e
     | 'v' -> SVecBool
+    | '%' ->
+      let a = go () in
+      if t.[!p] <> ';' then failwith "bad pair shape"; incr p;
+      let b = go () in
+      if t.[!p] <> '$' then failwith "bad pair shape"; incr p;
+      SClass [(parse_hexbytes "6b6579", a); (parse_hexbytes "76616c7565", b)]
+    | '?' | '*' | '&' ->
+      let e = go () in
+      (match e with SNil | SOpt _ -> failwith "a wrapper holds a shape that is never nil" | _ -> SOpt e)
     | '^' ->
       if t.[!p] = '$' then (incr p; STuple []) else begin
         let ss = ref [] in
@@ -71,6 +80,20 @@ let parse_shape (t : string) : shape =
       if t.[!p] <> ')' then failwith "bad array shape";
       incr p;
       SArr (nat_of_int cnt, e)
+    | '#' | '@' ->
+      let k = go () in
+      let ks = (match k with SStr -> KSStr | SInt kind -> KSInt kind | _ -> failwith "set elements are strings or integers") in
+      SSet (c = '@', ks)
+    | '<' when !p + 1 < String.length t && t.[!p] = 'm' && t.[!p + 1] = '|' ->
+      p := !p + 2;
+      let k = go () in
+      let ks = (match k with SStr -> KSStr | SInt kind -> KSInt kind | _ -> failwith "multimap keys are strings or integers") in
+      if t.[!p] <> '=' then failwith "bad multimap shape";
+      incr p;
+      let e = go () in
+      if t.[!p] <> '>' then failwith "bad multimap shape";
+      incr p;
+      SMMap (ks, e)
     | '<' ->
       let mode =
         if !p + 1 < String.length t && t.[!p + 1] = '|' && (t.[!p] = 'c' || t.[!p] = 'o' || t.[!p] = 'u') then begin
@@ -124,6 +147,18 @@ let parse_prior (s : shape) (t : string) : tv =
     | SF64 -> let k = token () in TF64 (n_of_hex (String.sub k 1 (String.length k - 1)))
     | SStr -> TStr (hexpart (token ()))
     | SBytes -> TBytes (hexpart (token ()))
+    | SOpt e -> if !p < String.length t && t.[!p] = 'n' then (incr p; TNil) else go e
+    | SSet (_, ks) ->
+      TArr (items (fun () -> let k = token () in (match ks with KSStr -> TStr (hexpart k) | KSInt kind -> TInt (kind, int_of k))))
+    | SMMap (ks, e) ->
+      TArr (items (fun () ->
+        expect '{'; ignore (token ()); expect '=';
+        let k = token () in
+        let key = (match ks with KSStr -> TStr (hexpart k) | KSInt kind -> TInt (kind, int_of k)) in
+        expect ';'; ignore (token ()); expect '=';
+        let x = go e in
+        expect '}';
+        TObj [(TStr (parse_hexbytes "6b6579"), key); (TStr (parse_hexbytes "76616c7565"), x)]))
     | SVec e -> TArr (items (fun () -> go e))
     | SVecBool -> TArr (items (fun () -> go SBool))
     | SArr (_, e) -> TArr (items (fun () -> go e))
